@@ -6,6 +6,7 @@ import (
 	"fmt"
 	"io"
 	"net/http"
+	"strings"
 	"testing"
 	"time"
 
@@ -25,6 +26,7 @@ type C06HTTP struct {
 	Mode     string `json:"mode"` // cl | none
 	Writes   []int  `json:"writes"`
 	Flush    bool   `json:"flush"`
+	Body     int    `json:"body,omitempty"` // the request carries a body of this many bytes, which the handler does not read
 }
 
 func genC06HTTP(t *rapid.T) E1Case {
@@ -39,11 +41,15 @@ func genC06HTTP(t *rapid.T) E1Case {
 	h.Flush = rapid.Bool().Draw(t, "flush")
 	c.HTTP = h
 	c.Pipe = "http"
+	h.Body = rapid.SampledFrom([]int{0, 0, 5, 300}).Draw(t, "reqbody")
 	req := "GET /x HTTP/1.1\r\nHost: h\r\n"
+	if h.Body > 0 {
+		req = fmt.Sprintf("POST /x HTTP/1.1\r\nHost: h\r\nContent-Length: %d\r\n", h.Body)
+	}
 	if h.ReqClose {
 		req += "Connection: close\r\n"
 	}
-	req += "\r\n"
+	req += "\r\n" + strings.Repeat("b", h.Body)
 	c.Tasks = []E1Task{{Role: "feeder", Ops: []E1Op{{Op: "feed", Text: req}}}}
 	c.Futile = drawFutile(t, []int{0, 0, 1, 2})
 	if rapid.Bool().Draw(t, "directed") {
@@ -86,6 +92,9 @@ func runC06HTTP(c E1Case) (out core.Outcome) {
 	}
 	r.baseClasses()
 	r.cls.Add("http-close-path")
+	if h.Body > 0 {
+		r.cls.Add("http-close-path:request-body-unread")
+	}
 	defer func() {
 		r.sweep(true)
 		if out.Violation == nil && r.incon != "" {
